@@ -11,6 +11,7 @@ import (
 	"strings"
 	"sync"
 	"testing"
+	"time"
 
 	"github.com/foxcpp/maddy/framework/config"
 	"github.com/foxcpp/maddy/framework/module"
@@ -134,10 +135,7 @@ func (s *srvScript) script(ev smtpd.Event) *smtpd.Action {
 	var act *smtpd.Action
 	switch a.What {
 	case "ok":
-		if commitStage || g.Chance(3, 4) {
-			return nil // the plain default reply
-		}
-		return nil
+		return nil // success replies are always the plain, well-formed default reply
 	case "ok-then-close":
 		return &smtpd.Action{DropAfter: true}
 	case "temp", "perm":
@@ -305,6 +303,28 @@ func buildSrvViews(events []mx.Event, tapName, srvName string, lmtp bool, txns [
 	}
 }
 
+// listenScripted starts the scripted server on a loopback address with an
+// OS-assigned port. Each case prefers its own 127.77.x.y address: on a machine
+// where many checks churn through connections the ephemeral ports of 127.0.0.1
+// run out (tens of thousands of TIME-WAIT sockets), while (address, port) pairs
+// of another loopback address are unaffected. 127.0.0.1:0 is the fallback.
+func listenScripted(cfg smtpd.Config, k int) (*smtpd.Server, error) {
+	a, b := 1+(k/250)%250, 1+k%250
+	addrs := []string{fmt.Sprintf("127.77.%d.%d:0", a, b), "127.0.0.1:0", fmt.Sprintf("127.78.%d.%d:0", b, a)}
+	var err error
+	for round := 0; round < 4; round++ {
+		for _, ad := range addrs {
+			cfg.ListenAddr = ad
+			var s *smtpd.Server
+			if s, err = smtpd.New(cfg); err == nil {
+				return s, nil
+			}
+		}
+		time.Sleep(time.Duration(50*(round+1)) * time.Millisecond)
+	}
+	return nil, err
+}
+
 func realWeights(p *prng.R, lmtp bool) (map[smtpd.Stage][]int, string) {
 	f := []int{4, 12, 25, 45}[p.Intn(4)]
 	// ok temp perm drop garbage ok-then-close
@@ -351,9 +371,13 @@ func runRealCase(t *testing.T, r *rep.Reporter, c *rep.Case, k int) {
 	lg := mx.NewLog()
 	srvName := "c01srv" + fmt.Sprint(k)
 	ss := &srvScript{seed: p.Uint64(), lmtp: lmtp, weights: weights, lg: lg, name: srvName, committed: map[int]bool{}}
-	srv, err := smtpd.New(smtpd.Config{LMTP: lmtp, SMTPUTF8: srvUTF8, PIPELINING: p.Bool(), EightBitMIME: p.Bool(), Hostname: "nexthop.invalid", Script: ss.script})
+	scfg := smtpd.Config{LMTP: lmtp, SMTPUTF8: srvUTF8, PIPELINING: p.Bool(), EightBitMIME: p.Bool(), Hostname: "nexthop.invalid", Script: ss.script}
+	srv, err := listenScripted(scfg, k)
 	if err != nil {
-		t.Fatal(err)
+		// Environment problem (ephemeral ports exhausted on a shared machine), not a verdict.
+		c.Inconclusive("cannot start the scripted server: " + err.Error())
+		c.Done("", false)
+		return
 	}
 	defer srv.Close()
 
@@ -394,7 +418,7 @@ func runRealCase(t *testing.T, r *rep.Reporter, c *rep.Case, k int) {
 	if sc.Bounce {
 		bounce = mx.NewTarget(bname, lg)
 	}
-	res := enqueueAndWait(t, sc, tap, bounce, lg)
+	res := enqueueAndWait(t, sc, tap, bounce, lg, tap.Starts)
 	closeInner()
 	srv.Close()
 	txns := srv.Txns()
@@ -411,10 +435,6 @@ func runRealCase(t *testing.T, r *rep.Reporter, c *rep.Case, k int) {
 	r.Count("srv_transactions", int64(len(txns)))
 	r.Count("srv_recipient_commits", int64(ncommit))
 
-	extra := "srv-utf8=off"
-	if srvUTF8 {
-		extra = "srv-utf8=on"
-	}
 	var txl []string
 	for _, tx := range txns {
 		var rc []string
@@ -423,7 +443,7 @@ func runRealCase(t *testing.T, r *rep.Reporter, c *rep.Case, k int) {
 		}
 		txl = append(txl, fmt.Sprintf("conn%d txn%d MAIL<%s>=%d RCPT[%s] DATA=%d dot=%d rcptdot=%v committed=%v", tx.Conn, tx.N, tx.From, tx.MailCode, strings.Join(rc, " "), tx.DataCmdCode, tx.DotCode, tx.RcptDotCodes, tx.CommittedRcpts))
 	}
-	evaluate(r, c, sc, res, lg, inst, bname, extra, func(m *msgSpec, atts []*attempt) {
+	evaluate(r, c, sc, res, lg, inst, bname, !srvUTF8, func(m *msgSpec, atts []*attempt) {
 		buildSrvViews(lg.Events(), inst, srvName, lmtp, txns, m, atts)
 	}, map[string]any{"server_script_nonok": ss.used, "server_transactions": txl})
 	r.Count("events", int64(lg.Len()))
